@@ -7,6 +7,8 @@ Model: `EdxmlModel/Miner/Confidence.lean`, over exact rationals (the SDK compute
 floating point; the correspondence compares the two within rounding).
 -/
 import EdxmlModel.Miner.Confidence
+import EdxmlModel.Miner.Search
+import EdxmlProps.Lemmas.Search
 import EdxmlProps.Lemmas.Merge
 import Mathlib.Tactic.Linarith
 import Mathlib.Tactic.Positivity
@@ -244,10 +246,160 @@ theorem universals_exact (rels : List URel) (k : String) (e : Event) (tt t st s 
   · rintro ⟨r, hr, hk, e1, e3, ht, hs⟩
     exact ⟨r, ⟨hr, hk⟩, t, ht, s, hs, e1.symm, rfl, e3.symm, rfl⟩
 
+
+/-! ### the reasoning pass (`_reason_from`): every execution the checker `run` accepts -/
+
+open EdxmlProps.Search in
+/-- C20: whatever the graph, the cut-offs, the order in which equally confident nodes are taken and
+the edges that are admitted on the way: after the reasoning pass the seed has confidence 1, every
+confidence lies in [0,1], and every node other than the seed that got a confidence got one above
+the requested minimum (so every reported attribute meets it) -/
+theorem search_wellformed (g : SGraph) (hg : GraphOk g) (min : Rat) (md seed : Nat) (tr : Trace) (ht : TraceOk tr)
+    (s : SState) (cs : List Rat) (h : run g min md seed tr = some (s, cs)) :
+    s.sc seed = some 1 ∧ (∀ k c, s.sc k = some c → Unit01 c) ∧ (∀ k c, k ≠ seed → s.sc k = some c → min < c) := by
+  have fin : ∀ s, Inv min seed s →
+      s.sc seed = some 1 ∧ (∀ k c, s.sc k = some c → Unit01 c) ∧ (∀ k c, k ≠ seed → s.sc k = some c → min < c) :=
+    fun s i => ⟨i.seedOne, i.unit, i.aboveMin⟩
+  cases tr with
+  | nil =>
+    simp only [run] at h
+    split at h
+    · cases h
+    · cases h; exact fin _ (inv_init min seed)
+  | cons p rest =>
+    obtain ⟨n, es⟩ := p
+    simp only [run] at h
+    split at h
+    · cases hrec : steps g min md (visit g min (SState.init seed) seed es) rest with
+      | none => rw [hrec] at h; cases h
+      | some r =>
+        obtain ⟨s2, cs2⟩ := r
+        rw [hrec] at h
+        cases h
+        have hv := visit_inv (n := seed) hg (ht (n, es) (by simp)) (inv_init min seed)
+        exact fin _ (steps_spec hg rest _ _ _ (fun p hp => ht p (by simp [hp])) hv hrec).1
+    · cases h
+
+open EdxmlProps.Search in
+/-- C20: the reasoning pass ends: no node is processed twice, so the loop runs at most once per
+node of the graph -/
+theorem search_terminates (g : SGraph) (hg : GraphOk g) (min : Rat) (md seed : Nat) (tr : Trace) (ht : TraceOk tr)
+    (s : SState) (cs : List Rat) (h : run g min md seed tr = some (s, cs)) :
+    (tr.map Prod.fst).Nodup ∧ ∀ N, (∀ n ∈ tr.map Prod.fst, n < N) → tr.length ≤ N := by
+  have hnd : (tr.map Prod.fst).Nodup := by
+    cases tr with
+    | nil => simp
+    | cons p rest =>
+      obtain ⟨n, es⟩ := p
+      simp only [run] at h
+      split at h
+      · rename_i hc
+        cases hrec : steps g min md (visit g min (SState.init seed) seed es) rest with
+        | none => rw [hrec] at h; cases h
+        | some r =>
+          obtain ⟨s2, cs2⟩ := r
+          rw [hrec] at h
+          cases h
+          have hv := visit_inv (n := seed) hg (ht (n, es) (by simp)) (inv_init min seed)
+          obtain ⟨_, _, _, i4, i5, _, _⟩ := steps_spec hg rest _ _ _ (fun p hp => ht p (by simp [hp])) hv hrec
+          simp only [List.map_cons, List.nodup_cons]
+          refine ⟨fun hmem => i5 n hmem ?_, i4⟩
+          rw [hc.1]
+          exact visit_visited_mem g min _ seed es
+      · cases h
+  refine ⟨hnd, fun N hN => ?_⟩
+  have hsub : tr.map Prod.fst ⊆ List.range N := fun n hn => List.mem_range.mpr (hN n hn)
+  have := (List.Nodup.subperm hnd hsub).length_le
+  simpa using this
+
+open EdxmlProps.Search in
+/-- C20: nodes are processed in order of decreasing confidence (the Dijkstra property: a node's
+confidence is final when it is processed, no later path can beat it); `cs` are the confidences the
+processed nodes had when it was their turn -/
+theorem search_sorted (g : SGraph) (hg : GraphOk g) (min : Rat) (md seed : Nat) (tr : Trace) (ht : TraceOk tr)
+    (s : SState) (cs : List Rat) (h : run g min md seed tr = some (s, cs)) :
+    cs.Pairwise (· ≥ ·) ∧ cs.length = tr.length := by
+  cases tr with
+  | nil =>
+    simp only [run] at h
+    split at h
+    · cases h
+    · cases h; simp
+  | cons p rest =>
+    obtain ⟨n, es⟩ := p
+    simp only [run] at h
+    split at h
+    · cases hrec : steps g min md (visit g min (SState.init seed) seed es) rest with
+      | none => rw [hrec] at h; cases h
+      | some r =>
+        obtain ⟨s2, cs2⟩ := r
+        rw [hrec] at h
+        cases h
+        have he := ht (n, es) (by simp)
+        have hv := visit_inv (n := seed) hg he (inv_init min seed)
+        have hb : ∀ m ∈ (visit g min (SState.init seed) seed es).touched,
+            (visit g min (SState.init seed) seed es).scD m ≤ 1 := fun m _ => (scD_unit hv m).2
+        have hs := steps_sorted hg rest _ _ _ 1 (fun p hp => ht p (by simp [hp])) hv hb hrec
+        have hl := (steps_spec hg rest _ _ _ (fun p hp => ht p (by simp [hp])) hv hrec).2.2.2.2.2.2
+        exact ⟨List.pairwise_cons.mpr ⟨fun c hc => hs.2 c hc, hs.1⟩, by simp [hl]⟩
+    · cases h
+
+open EdxmlProps.Search in
+/-- C20: the confidence of a node is final once the node has been processed: later iterations
+never change it -/
+theorem search_visited_final (g : SGraph) (hg : GraphOk g) (min : Rat) (md seed : Nat) (tr : Trace) (ht : TraceOk tr)
+    (s0 s : SState) (cs : List Rat) (hi : Inv min seed s0) (h : steps g min md s0 tr = some (s, cs)) :
+    ∀ k ∈ s0.visited, s.sc k = s0.sc k :=
+  (steps_spec hg tr _ _ _ ht hi h).2.1
+
+/-- C20: the checker the correspondence runs on the traces of real mining runs (`runC`, which grants
+the SDK's floating point products a slack `eps`) is, without slack, the exact algorithm: every
+annotated trace it accepts is an execution of `run` with the same resulting state, to which the
+theorems above apply -/
+theorem checker_exact (g : SGraph) (min : Rat) (md seed : Nat) (tr : ATrace) (s : SState)
+    (h : runC g min 0 md seed tr = some s) : ∃ cs, run g min md seed tr.erase = some (s, cs) :=
+  EdxmlProps.Search.runC_zero g min md seed tr s h
+
+/-- C20 (coverage): mining without a seed goes on until no node has taint 0. A node whose taint is
+positive has a confidence with respect to some seed, and that confidence is above the minimum
+(`search_wellformed`) or 1 (the node is that seed): it is at least the minimum, so the node is part
+of that seed's instance (`extract_result_set` keeps what is not below the minimum) -/
+theorem coverage (isSeed : Bool) (cs : List Rat) (min : Rat) (hmin : min ≤ 1)
+    (hentries : ∀ c ∈ cs, min < c ∨ c = 1) (hseed : isSeed = true → (1 : Rat) ∈ cs)
+    (ht : 0 < taintHistory isSeed cs) : ∃ c ∈ cs, min ≤ c := by
+  have hne : cs ≠ [] := by
+    intro hnil
+    subst hnil
+    cases isSeed with
+    | true => simpa using hseed rfl
+    | false =>
+      have : taintHistory false [] = 0 := by decide +kernel
+      rw [this] at ht
+      exact absurd ht (lt_irrefl _)
+  obtain ⟨c, rest, rfl⟩ := List.exists_cons_of_ne_nil hne
+  refine ⟨c, by simp, ?_⟩
+  rcases hentries c (by simp) with h | h
+  · exact le_of_lt h
+  · rw [h]; exact hmin
+
 /-! ### Non-vacuity -/
 
 example : noisyOr [1/2, 1/2] = 3/4 := by decide +kernel
 example : taintOf [1/2, 1/2, 1/2] = 5/8 := by decide +kernel   -- not the noisy-or 7/8: the SDK's reduce formula
 example : dijkstra 1 (1/5) 0 (4/5) = 4/25 := by decide +kernel
+
+/-- a three node graph: the seed 0 reaches node 1 (confidence 9/10 · 1/2) and node 2 through node 1 -/
+def exGraph : SGraph := { conf := fun _ => 1, taint := fun k => if k = 2 then 1/2 else 0 }
+def exTrace : Trace := [(0, [⟨1, 9/10⟩, ⟨2, 1/10⟩]), (1, [⟨2, 1/2⟩, ⟨0, 1⟩]), (2, [])]
+example : (run exGraph (1/100) 10 0 exTrace).map (·.2) = some [1, 9/10, 9/40] := by decide +kernel
+example : ((run exGraph (1/100) 10 0 exTrace).map fun r => [r.1.sc 0, r.1.sc 1, r.1.sc 2]) =
+    some [some 1, some (9/10), some (9/40)] := by decide +kernel
+-- processing the less confident node first is not an execution of the algorithm
+example : run exGraph (1/100) 10 0 [(0, [⟨1, 9/10⟩, ⟨2, 1/10⟩]), (2, []), (1, [⟨2, 1/2⟩])] = none := by decide +kernel
+-- nor is stopping while a candidate that passes the guard is left
+example : (run exGraph (1/100) 10 0 [(0, [⟨1, 9/10⟩, ⟨2, 1/10⟩])]).isNone = true := by decide +kernel
+example : EdxmlProps.Search.GraphOk exGraph :=
+  ⟨fun _ => ⟨by simp [exGraph], by simp [exGraph]⟩, fun k => by
+    simp only [exGraph]; split <;> exact ⟨by norm_num, by norm_num⟩⟩
 
 end EdxmlProps.C20
